@@ -16,7 +16,7 @@ RULE = ("(a) the full grid statistic(14) x shapes with 1..4 axes and lengths 0..
         "and out-of-range, --project-shape / -p incl. 0, equal, larger, 2^63, 2^64-1) on the same shapes; (b') 1-D sizes 169..176, 345, 1031 and n x 3 spectra around the factorial-table seam, cohorts of 85-88 samples with projection; (c) option "
         "values at and beyond bounds: --precision 0, 17, 65535, 65536, 2^32; --threads 0, 1, 2^40; (d) inputs: empty, "
         "1..7 bytes, headers with absurd shapes (0, 2^32/2^32, 2^64, empty, negative, non-numeric), values nan/1e999/"
-        "garbage, npy with absurd header_len, bit flips and splices of valid text/npy files; (e) create: contradictory / "
+        "garbage, npy with absurd header_len (and the header-length field swept from zero upwards in versions 1-3), bit flips and splices of valid text/npy files; (e) create: contradictory / "
         "duplicate / empty / unknown sample lists, sample files with odd lines, projection bounds; mutated VCF, BGZF "
         "and BCF bytes (bit flips, truncations, splices - fuzz-style support only: noodles is not modelled). Every "
         "run must exit 0 or non-zero with a diagnostic on stderr; exit 101 / 'panicked at' / a signal is a failure. "
@@ -154,6 +154,15 @@ def check(rep, tier, seed):
     inputs.append(good_npy[:8] + b"\xff\xff" + good_npy[10:])                       # header_len 65535
     inputs.append(b"\x93NUMPY\x02\x00\xff\xff\xff\xff" + good_npy[10:])           # v2, header_len 2^32-1
     inputs.append(b"\x93NUMPY\x03\x00\x00\x00\x00\x80" + good_npy[10:])
+    # the header-length field swept over what a damaged file can hold: zero (no dict at all), less than the dict, one less and
+    # one more than it, more than the file - with the 2-byte field of version 1 and the 4-byte field of versions 2 and 3, with
+    # the rest of the file kept, dropped, or cut right behind the field
+    hl = int.from_bytes(good_npy[8:10], "little")
+    for major, width in ((1, 2), (2, 4), (3, 4)):
+        for v in (0, 1, 2, 3, 5, 9, 10, 11, 63, 64, hl - 1, hl + 1, len(good_npy), len(good_npy) - 10, len(good_npy) - 9):
+            if 0 <= v < 256 ** width:
+                head = b"\x93NUMPY" + bytes([major, 0]) + v.to_bytes(width, "little")
+                inputs += [head + good_npy[10:], head, head + good_npy[10:10 + v], head + b"\n" * v]
     for hdr in (b"{'descr': '<f8', 'fortran_order': False, 'shape': (0,), }", b"{'descr': '<f8', 'fortran_order': False, 'shape': (4294967296, 4294967296), }",
                 b"{'descr': '<f8', 'fortran_order': False, 'shape': (18446744073709551616,), }", b"{'descr': '<f8', 'fortran_order': False, 'shape': (), }",
                 b"{'descr': '<f8', 'fortran_order': False, 'shape': (2, 3), 'shape': (3, 2), }", b"{'shape': (6,), }", b"{}", b"{'descr': '', 'fortran_order': False, 'shape': (6,), }",
